@@ -463,7 +463,9 @@ fn parse_expr(token_stream: &mut TokenStream, min_bind_pow: f64) -> Result<Expr,
                     token: Token::Operator(operator),
                 });
             }
-            let next_expr = parse_expr(token_stream, 2.0)?;
+            // The operand extends over products and powers only when the context allows it:
+            // in `x / -y * z` the minus applies to `y`, not to `y * z`
+            let next_expr = parse_expr(token_stream, min_bind_pow.max(2.0))?;
             Ok(Expr::UnaryOpPrefix {
                 op: operator,
                 value: Box::new(next_expr),
